@@ -123,8 +123,8 @@ fn defs() -> &'static [CheckDef] {
             CheckDef {
                 id: "C02",
                 props: Props::of(&["C02"]),
-                scens: vec![Scen { name: "tcp-pair-liveness", weight: 3, run: tcp_liveness }, Scen { name: "tcp-peer-sender", weight: 1, run: peer_sender }],
-                rule: "one run = two real TCP endpoints polled ONLY on frame arrival, after application calls and at the instant returned by poll_at; faults until fault_end then reliable in-order delivery; non-trivial = a fault fired AND a retransmission or out-of-order delivery happened AND >= 1000 bytes delivered; a quarter of the runs: one real sender against a scripted receiver (hostile ACK / window / loss schedule, then a plain correct receiver on a loss-free network) polled per poll_at, non-trivial per the C05 rule; distinct = event-log hash",
+                scens: vec![Scen { name: "tcp-pair-liveness", weight: 4, run: tcp_liveness }, Scen { name: "tcp-peer-sender", weight: 1, run: peer_sender }, Scen { name: "tcp-peer-receiver", weight: 1, run: peer_receiver }],
+                rule: "one run = two real TCP endpoints polled ONLY on frame arrival, after application calls and at the instant returned by poll_at; faults until fault_end then reliable in-order delivery; non-trivial = a fault fired AND a retransmission or out-of-order delivery happened AND >= 1000 bytes delivered; a third of the runs: one real socket against a scripted peer (hostile schedule, then a plain correct receiver / sender on a loss-free network) polled per poll_at, non-trivial per the C05 / C04 rule; distinct = event-log hash",
                 assumptions: vec!["bounded-progress constants (400 s window, 600 s + 40 x segments x RTT total) are an order of magnitude above the worst legitimate timer chain (RTO/ZWP cap 60 s)", "set_timeout(None): a user timeout legitimately aborts"],
                 real: REAL,
                 stub: STUB,
